@@ -254,7 +254,7 @@ pub fn c15_tournament_adjacency_map_n3_t2() {
     tournament::<AdjacencyMap, 3>(cx::EXACT + 2);
 }
 
-// @verif prop=C15 tier=thorough fl=f2 feat=map4 role=tournament/adjacency-map t=3600 mem=30
+// @verif prop=C15 tier=exp fl=f2 feat=map4 role=tournament/adjacency-map t=3600 mem=30
 #[cfg_attr(kani, kani::proof)]
 #[cfg_attr(kani, kani::unwind(8))]
 pub fn c15_tournament_adjacency_map_n3_p4() {
@@ -297,7 +297,7 @@ pub fn c15_erdos_renyi_matrix_n3() {
     erdos_renyi::<AdjacencyMatrix, 3>(1);
 }
 
-// @verif prop=C15 tier=thorough fl=f1 role=erdos-renyi/edge-list t=3600 mem=30
+// @verif prop=C15 tier=exp fl=f1 role=erdos-renyi/edge-list t=3600 mem=30
 #[cfg_attr(kani, kani::proof)]
 #[cfg_attr(kani, kani::unwind(8))]
 pub fn c15_erdos_renyi_edge_list_n3() {
@@ -312,14 +312,14 @@ pub fn c15_erdos_renyi_adjacency_map_n3_t2() {
     erdos_renyi::<AdjacencyMap, 3>(cx::EXACT + 2);
 }
 
-// @verif prop=C15 tier=thorough fl=f2 feat=map4 role=erdos-renyi/adjacency-map t=3600 mem=30
+// @verif prop=C15 tier=exp fl=f2 feat=map4 role=erdos-renyi/adjacency-map t=3600 mem=30
 #[cfg_attr(kani, kani::proof)]
 #[cfg_attr(kani, kani::unwind(8))]
 pub fn c15_erdos_renyi_adjacency_map_n3_p4() {
     erdos_renyi::<AdjacencyMap, 3>(4);
 }
 
-// @verif prop=C15 tier=thorough fl=f2 role=erdos-renyi/adjacency-list t=2400 mem=20
+// @verif prop=C15 tier=thorough fl=f2 role=erdos-renyi/adjacency-list t=2400 mem=16
 #[cfg_attr(kani, kani::proof)]
 #[cfg_attr(kani, kani::unwind(8))]
 pub fn c15_erdos_renyi_adjacency_list_n3() {
@@ -334,7 +334,7 @@ pub fn c15_erdos_renyi_rejects_matrix() {
     erdos_renyi_rejects::<AdjacencyMatrix, 3>();
 }
 
-// @verif prop=C15 tier=thorough fl=f1 role=erdos-renyi-rejects/edge-list t=3600 mem=30 expect=panic
+// @verif prop=C15 tier=exp fl=f1 role=erdos-renyi-rejects/edge-list t=3600 mem=30 expect=panic
 #[cfg_attr(kani, kani::proof)]
 #[cfg_attr(kani, kani::unwind(8))]
 pub fn c15_erdos_renyi_rejects_edge_list() {
@@ -349,7 +349,7 @@ pub fn c15_erdos_renyi_rejects_adjacency_map() {
 }
 
 // Determinism: two calls with equal (symbolic) arguments, AdjacencyMatrix.
-// @verif prop=C15 tier=thorough fl=f0 role=deterministic/matrix t=3600 mem=24
+// @verif prop=C15 tier=exp fl=f0 role=deterministic/matrix t=3600 mem=24
 #[cfg_attr(kani, kani::proof)]
 #[cfg_attr(kani, kani::unwind(8))]
 pub fn c15_deterministic_matrix_n3() {
